@@ -26,7 +26,7 @@ LAYOUT = {
     ACL: (2, 2, 65535),
     SCO: (2, 1, 255),
     EVT: (1, 1, 255),
-    ISO: (2, 2, 16383),
+    ISO: (2, 2, 65535),
 }
 
 # body lengths the property names, per width of the length field
@@ -34,7 +34,10 @@ BOUNDARY_LENGTHS = {
     1: (0, 1, 2, 3, 127, 128, 254, 255),
     2: (0, 1, 2, 3, 254, 255, 256, 257, 511, 512, 4096),
 }
-HUGE = {ACL: 65535, ISO: 16383}
+HUGE = {ACL: 65535, ISO: 65535}
+# (the H4 framing of ISO data has a 16-bit length field; its two top bits are RFU for the ISO layer, which
+# is none of the framers' business: all of them must frame on the 16-bit value)
+HUGE_CHOICES = {ACL: (65535, 65534, 32768), ISO: (65535, 16383, 16384, 49152)}
 
 INVALID_TYPES = (0x00, 0x06, 0x07, 0x08, 0x10, 0x77, 0x80, 0xFE, 0xFF)
 
